@@ -746,7 +746,10 @@ def emit(doc: Document, format_options: FormatOptions | None = None) -> str:
 
     # Emit META if present
     if doc.meta:
-        lines.append(emit_meta(doc.meta, format_options))
+        meta_text = emit_meta(doc.meta, format_options)
+        # I2: a META whose fields are all Absent emits nothing (not an empty line)
+        if meta_text:
+            lines.append(meta_text)
 
     # Emit separator if present
     if doc.has_separator:
